@@ -54,6 +54,7 @@ from mashumaro.core.meta.helpers import (
     is_named_tuple,
     is_optional,
     is_type_var_any,
+    is_union,
     resolve_type_params,
     substitute_type_params,
     type_name,
@@ -1202,6 +1203,7 @@ class CodeBuilder:
                 bare_type, self.get_field_resolved_type_params(fname)
             )
             or is_optional(real_type)
+            or (is_union(real_type) and NoneType in get_args(real_type))
             or self.get_field_default(fname) is None
         )
         value = "value" if could_be_none or force_value else f"self.{fname}"
